@@ -30,7 +30,7 @@ def suffix(rng, r):
 def reset_script(rng, plat):
     mode = mode_tok(rng)
     ops = [f"P plat {plat}", f"H new a {mode}"]
-    kind = rng.choice(["partial", "deep", "offset", "offset-input", "fin", "empty"])
+    kind = rng.choice(["partial", "deep", "offset", "offset-input", "offset-panic", "fin", "empty"])
     if kind == "partial":
         ops.append(f"H upd a {pat(rng.choice([1, 63, 64, 65, 1023, 1024, 1025, 5000]), rng)}")
     elif kind == "deep":
@@ -41,10 +41,18 @@ def reset_script(rng, plat):
         ops.append(f"H off a {1024 * rng.choice([2, 4, 1 << 20, 1 << 40])}")
         ops.append(f"H upd a {pat(rng.choice([1, 1024, 1500, 2048]), rng)}")
         ops.append("H cvnr a")
+    elif kind == "offset-panic":
+        # a misuse that panics (too much input for the subtree / finalize with an offset), caught by the caller, who then
+        # resets the hasher and goes on using it: nothing of the failed call may survive the reset
+        k = rng.choice([1, 2, 4, 1 << 20])
+        ops.append(f"H off a {1024 * k}")
+        if rng.random() < 0.5:
+            ops.append(f"H upd a {pat(rng.choice([1, 500, 1024]), rng)}")
+        ops.append(rng.choice([f"H upd a {pat(1024 * k + rng.choice([1, 1024, 5000]), rng)}", "H fin a", "H xof a x"]))
     elif kind == "fin":
         ops += [f"H upd a {pat(3000, rng)}", "H fin a", "H xof a x", "X fill x 10"]
     # Hasher::reset itself, or one of the ways the trait impls (src/traits.rs) reach it
-    ops += rng.choice([["H reset a"], ["H reset a"], ["T reset a"], ["T finr a"], ["T xofr a y", "T read y 40"]]) if kind not in ("offset", "offset-input") else ["H reset a"]
+    ops += rng.choice([["H reset a"], ["H reset a"], ["T reset a"], ["T finr a"], ["T xofr a y", "T read y 40"]]) if kind not in ("offset", "offset-input", "offset-panic") else ["H reset a"]
     # the same suffix on the reset hasher and on a fresh one: the ops are deterministic given the seed, so
     # generate once and rename
     st = rng.getstate()
